@@ -905,13 +905,19 @@ func runCheck(id, tier string) int {
 			}
 		}
 	}
-	if len(infra) > 0 {
+	// Trouble in some workers (a stalled or crashed worker) gives no verdict -
+	// unless other workers raised alarms that are then confirmed in fresh
+	// processes: a confirmed violation is sound whatever else went wrong.
+	infraDie := func() {
 		for _, m := range infra {
 			fmt.Fprintln(os.Stderr, "INFRA:", m)
 		}
 		die(2, "infrastructure trouble in check %s (not a property verdict)", id)
 	}
-	if agg.Runs == 0 {
+	if len(infra) > 0 && len(viols) == 0 && len(cpuLoops) == 0 {
+		infraDie()
+	}
+	if agg.Runs == 0 && len(cpuLoops) == 0 {
 		die(2, "no simulated run completed")
 	}
 
@@ -1044,6 +1050,14 @@ func runCheck(id, tier string) int {
 	}
 	if len(unrepro) > 0 && nViol == 0 && len(knownHit) == 0 {
 		die(2, "alarm(s) raised by workers could not be reproduced: no verdict for %s", id)
+	}
+	if len(infra) > 0 {
+		if nViol == 0 && len(knownHit) == 0 {
+			infraDie()
+		}
+		for _, m := range infra {
+			fmt.Fprintln(os.Stderr, "note (a worker had trouble; the violations below were confirmed in fresh processes all the same):", tail(m, 300))
+		}
 	}
 	// auxiliary race lane (runtime monitoring, separate evidence keys)
 	var race *raceResult
